@@ -23,7 +23,7 @@ try:
             json.dump(meta, open(os.path.join(d, "meta.json"), "w"), indent=1, ensure_ascii=False)
             print("%-55s obsolete" % name, flush=True)
             continue
-        subprocess.run("git checkout -q -- . && git clean -fdq", shell=True, cwd=wt)
+        subprocess.run("git reset -q --hard && git clean -fdq", shell=True, cwd=wt)
         a = subprocess.run(["git", "apply", os.path.join(d, "patch.diff")], cwd=wt, stderr=subprocess.PIPE)
         if a.returncode != 0:
             a = subprocess.run(["git", "apply", "-3", os.path.join(d, "patch.diff")], cwd=wt, stderr=subprocess.PIPE)
